@@ -3,6 +3,7 @@ package rules
 import (
 	"fmt"
 	"go/types"
+	"sort"
 	"strings"
 
 	"dirkcheck/internal/an"
@@ -516,4 +517,104 @@ func isMergeHelperCall(v ssa.Value) bool {
 		return false
 	}
 	return isMakeMap(an.Result(rets[0], 0))
+}
+
+// LookupsReadOnly (C18.O7 fetcher.lookups-read-only): what a lookup answers is a function of the account maps - the start-up
+// maps and the overlay AddAccount maintains (C18.O3/O4). The lookups themselves (FetchWallet, FetchAccounts, FetchAccount,
+// FetchAccountByKey, with the same-receiver helpers they call) write no state of the fetcher: no store into a field of the
+// service or into a map held by one, no mutation of a sync.Map field. A cache filled on the lookup path (positive or
+// negative) is a second source of answers that AddAccount then has to keep in step - an account created at run time that was
+// asked for too early stays "unknown".
+func (c *Ctx) LookupsReadOnly(prop string) {
+	rule := "C18.O7 fetcher.lookups-read-only"
+	impl := c.Role(rule, pkgFetcher, "Service")
+	if impl == nil {
+		return
+	}
+	n := 0
+	for _, name := range []string{"FetchWallet", "FetchAccounts", "FetchAccount", "FetchAccountByKey"} {
+		F := c.P.Method(impl, name)
+		if F == nil || F.Blocks == nil {
+			continue
+		}
+		n++
+		unit := map[*ssa.Function]bool{}
+		var collect func(f *ssa.Function, d int)
+		collect = func(f *ssa.Function, d int) {
+			if f == nil || unit[f] || f.Blocks == nil || d > 3 {
+				return
+			}
+			unit[f] = true
+			for _, g := range WithClosures(f) {
+				unit[g] = true
+				for _, ci := range Calls(g, func(ssa.CallInstruction) bool { return true }) {
+					cal := ci.Common().StaticCallee()
+					if cal != nil && !ci.Common().IsInvoke() && cal.Signature.Recv() != nil && namedOf(cal.Signature.Recv().Type()) == impl {
+						collect(cal, d+1)
+					}
+				}
+			}
+		}
+		collect(F, 0)
+		ofService := func(v ssa.Value) bool {
+			for i := 0; i < 8 && v != nil; i++ {
+				switch x := v.(type) {
+				case *ssa.FieldAddr:
+					if namedOf(x.X.Type()) == impl {
+						return true
+					}
+					v = x.X
+				case *ssa.UnOp:
+					v = x.X
+				case *ssa.IndexAddr:
+					v = x.X
+				case *ssa.Lookup:
+					v = x.X
+				case *ssa.Extract:
+					v = x.Tuple
+				default:
+					return false
+				}
+			}
+			return false
+		}
+		bad := 0
+		var fns []*ssa.Function
+		for f := range unit {
+			fns = append(fns, f)
+		}
+		sort.Slice(fns, func(i, j int) bool { return fns[i].String() < fns[j].String() })
+		for _, f := range fns {
+			for _, b := range f.Blocks {
+				for _, ins := range b.Instrs {
+					what := ""
+					switch x := ins.(type) {
+					case *ssa.Store:
+						if ofService(x.Addr) {
+							what = "stores into " + an.Term(x.Addr)
+						}
+					case *ssa.MapUpdate:
+						if ofService(x.Map) {
+							what = "updates a map of the service"
+						}
+					case ssa.CallInstruction:
+						if op, ok := isSyncMapOp(x); ok && op != "Load" && op != "Range" && len(x.Common().Args) > 0 && ofService(x.Common().Args[0]) {
+							what = "calls " + op + " on a sync.Map of the service"
+						}
+						if cal := x.Common().StaticCallee(); cal != nil && cal.Pkg != nil && cal.Pkg.Pkg.Path() == "sync/atomic" && len(x.Common().Args) > 0 && ofService(x.Common().Args[0]) && !strings.HasPrefix(cal.Name(), "Load") {
+							what = "writes an atomic of the service"
+						}
+					}
+					if what != "" {
+						bad++
+						c.R.Fail(rule, Fn(F)+":"+Fn(f), c.Pos(ins), "a lookup "+what+": its later answers no longer depend on the account maps alone (a cache filled on the lookup path has to be kept in step by AddAccount)", "lookups write no state of the fetcher", nil)
+					}
+				}
+			}
+		}
+		if bad == 0 {
+			c.R.OK(rule, Fn(F), c.P.FuncPos(F), fmt.Sprintf("%d functions on the lookup path write no state of the fetcher", len(unit)))
+		}
+	}
+	c.R.Floor(rule, "fetcher lookups", n, 4)
 }
